@@ -82,6 +82,9 @@ def judge(ctx, sc, obs, m, tag=''):
   if w:
     ctx.violation('returned-keys-wrong', w, case)
     return
+  if obs.get('lost_writes'):
+    ctx.violation('written-value-lost', f"a value the program wrote during {sc['kind']} is not what it later read / what was returned: {obs['lost_writes'][:2]}", case)
+    return
   w = S.immutable_write_oracle(sc, obs)
   if w:
     ctx.violation('immutable-write-accepted', w, case)
@@ -224,7 +227,11 @@ def run(ctx):
   thorough = ctx.tier == 'thorough'
   for _ in range(30 if not thorough else 300):
     S.check_shared(ctx, S.shared_case(ctx.rng), 'C01')
-  n = 900 if not thorough else 9000
+  # dict-valued writes over a submodule's subtree followed by further updates from the nested scopes
+  restore = [S.gen_restore_prog(ctx.rng) for _ in range(50 if not thorough else 600)]
+  ctx.count('streams', 'restore', len(restore))
+  run_programs(ctx, drv, conv, restore)
+  n = 800 if not thorough else 9000
   done = 0
   sample_src = None
   while done < n:
